@@ -3,6 +3,13 @@
 case = one run of update_file:
 
   {"versions": [v0, ..., vn],          n >= 1, each a list of "\\n"-terminated lines (no CR, no lone ".");
+                                       an item of the list may also be a run of lines written with a repeat
+                                       count, [count, first, width] or [count, first, width, fill]: the lines
+                                       "<number>:" + fill character ("x") up to width characters (newline
+                                       included), or the bare number where the width leaves no room, for the
+                                       numbers first .. first + count - 1 (see expand(); this is how versions
+                                       of 8 KiB .. 3 MiB are written); the patch between two versions keeps or
+                                       replaces such a run as a whole (script());
                                        consecutive versions may be equal (a no-change step: the file was
                                        published again unchanged; its patch is the empty ed script, served as
                                        a gzip of zero bytes and listed with size 0 and the hash of "")
@@ -84,6 +91,16 @@ A third, enumerated source ("index-layouts", ``enum_layouts()``) runs three of t
 through every Index layout flag alone, the newer flags combined, and every pair of a newer flag with any
 other flag, in every field order / hash configuration, from every start state without fault and with four
 fault plans from the oldest version.
+
+A fourth, enumerated source ("sizes", ``enum_sizes()``) has files, patches and lines around the sizes at which
+buffered I/O and block-wise hashing change behaviour - 8 KiB, 64 KiB, 1 MiB: per boundary b eight histories
+(``size_histories()``): versions b - 1, b, b + 1 bytes long that differ at the end / at the start / in the middle of
+very many short lines / in non-ASCII lines (b lies between the size in characters and in bytes); from 6 bytes to
+b + 1 and back to 4; patches exactly b - 1, b, b + 1 bytes long (the file grows to 3 b); one line of b - 1, b, b + 1
+bytes; the whole content (b + 1 bytes) replaced by b - 1 other bytes.  Each runs with SHA1 and with SHA256 from
+every start state without fault, and from the oldest version with each patch self-consistent but wrong (the wrong
+line is the last one of the result), each patch replaced by an equivalent script (it differs from the listed one
+at its very end only), last patch replaced, wrong Current hash, first / last write, open, rename, close failing.
 """
 import builtins
 import contextlib
@@ -138,7 +155,10 @@ RULE = ("Hypothesis generates histories v0..vn (n=1..4, 0..7 lines per version f
         "Enumerated besides (index-layouts): 3 fixed histories (n=1,2,3) x {each of the 12 layout flags alone, the 3 first-entry-inline flags together, "
         "all 6 newer flags with / without CR LF: each x 3 hash configurations x 4 field orders x with/without ignorable fields; every pair "
         "(newer flag, other flag) x 4 field orders at a rotating hash configuration} x {every start without fault; oldest version x "
-        "{last patch replaced, first patch wrong, wrong Current hash, rename failing}}.  Non-trivial = no fault and the local file at v1..vn-1 of a history with n>=2, "
+        "{last patch replaced, first patch wrong, wrong Current hash, rename failing}}.  Enumerated besides (sizes): per boundary b in {8 KiB, 64 KiB, 1 MiB} 8 histories written with repeat counts (versions of b-1, b, b+1 bytes growing at the end, "
+        "shrinking at the start, changing amid 1841 / 12758 / 165656 lines of 2..8 bytes, with non-ASCII lines; 6 bytes -> b+1 -> 4 bytes; patches of exactly b-1, b, b+1 bytes; "
+        "one line of b-1, b, b+1 bytes; b+1 bytes all replaced) x SHA1 / SHA256 x {every start without fault; oldest version x {each patch wrong, each patch equivalent, "
+        "last patch replaced, wrong Current hash, first / last write, open, rename, close failing}}.  Non-trivial = no fault and the local file at v1..vn-1 of a history with n>=2, "
         "or a fault that took effect (the damaged resource was fetched / the write, open, rename "
         "or close was attempted); a debris plan: the earlier run left something and (no fault or the fault took effect); distinct = distinct canonical JSON of the (history incl. layout and call "
         "form, start, faults, debris, prior) tuple")
@@ -170,6 +190,11 @@ ASSUMPTIONS = [
     "remote and local; the knobs of its helpers (replace_file encoding=, patches_from_ed_script re_cmd=) "
     "cannot be reached through update_file and stay out of this check",
     "file:// URLs through urllib; process locale must be UTF-8 for the non-ASCII line (else those cases are skipped)",
+    "versions written with repeat counts are expanded by the harness (expand()); their patches come from the same LCS differ run "
+    "over the items (a run is kept or replaced as a whole) and are checked against the harness's ed model like every other patch; "
+    "the generated histories and the fixed ones stay below 100 bytes per version - sizes are explored by the 'sizes' source only, "
+    "at 8 KiB, 64 KiB and 1 MiB (largest file 3 MiB, largest patch and longest line 1 MiB + 10), and only with the plain Index layout, "
+    "without debris and without an earlier update",
     "Hypothesis 6.168 generators; sha1 for distinctness",
 ]
 EXHAUSTIVE = {
@@ -182,7 +207,9 @@ LAYOUTS_DESC = ("index-layouts: for 3 of the fixed histories (n = 1, 2, 3): ever
                 "flags together, the newer flags together (with and without CR LF) - each x 3 hash configurations x 4 field orders x "
                 "with/without ignorable fields - and every pair of a newer flag with any other flag x 4 field orders; each x every "
                 "start state without fault + 4 fault plans from the oldest version")
-EXHAUSTIVE = {t: d + "; " + LAYOUTS_DESC for t, d in EXHAUSTIVE.items()}
+SIZES_DESC = ("sizes: files and patches around 8 KiB, 64 KiB and 1 MiB (versions written with repeat counts; 8 histories per boundary, "
+              "see size_histories()) x SHA1 / SHA256 x every start state without fault + (2 per patch + 7) fault plans from the oldest version")
+EXHAUSTIVE = {t: d + "; " + LAYOUTS_DESC + "; " + SIZES_DESC for t, d in EXHAUSTIVE.items()}
 BUDGET = {"quick": 180, "thorough": 1800}
 
 PATCH_FAULTS = ("replaced", "equivalent", "wrong", "truncated", "notgzip", "missing")
@@ -232,10 +259,79 @@ _REAL = dict(urlopen=urllib.request.urlopen, urlretrieve=urllib.request.urlretri
 # case plumbing
 
 
+MAX_BYTES = 5 << 20         # upper bound on one version written with repeat counts
+
+
+def seg_line(i, width, fill="x"):
+    """Line number i of a run: its number, a colon, then the fill character up to ``width`` characters
+    including the newline (the bare number where the width leaves no room: 'many short lines')."""
+    s = "%d" % i
+    return (s if len(s) >= width - 1 else (s + ":").ljust(width - 1, fill)) + "\n"
+
+
+_RUNS = {}          # run -> its lines (the same run is expanded many times in one case)
+
+
+def expand(v):
+    """The lines of a version.  An item of a version is one line (str) or a run written compactly,
+    [count, first, width] / [count, first, width, fill]: the lines seg_line(first + k, width, fill),
+    k < count."""
+    out = []
+    for it in v:
+        if isinstance(it, str):
+            out.append(it)
+        else:
+            key = tuple(it)
+            if key not in _RUNS:
+                if len(_RUNS) >= 24:
+                    _RUNS.clear()
+                fill = it[3] if len(it) > 3 else "x"
+                _RUNS[key] = tuple(seg_line(it[1] + k, it[2], fill) for k in range(it[0]))
+            out += _RUNS[key]
+    return out
+
+
+def n_lines(v):
+    return sum(1 if isinstance(it, str) else it[0] for it in v)
+
+
+def _is_int(x, lo, hi):
+    return isinstance(x, int) and not isinstance(x, bool) and lo <= x <= hi
+
+
 def valid_version(v):
-    return (isinstance(v, list) and len(v) <= 40 and
-            all(isinstance(l, str) and l.endswith("\n") and l.count("\n") == 1 and l != ".\n"
-                and "\r" not in l and WRONG_LINE != l for l in v))
+    """At most 40 items; an item is a line ("\\n"-terminated, no CR, not a lone ".") or a run
+    [count, first, width(, fill)] (fill: one character, not a line boundary of any kind)."""
+    if not isinstance(v, list) or len(v) > 40:
+        return False
+    size = 0
+    for it in v:
+        if isinstance(it, str):
+            if not (it.endswith("\n") and it.count("\n") == 1 and it != ".\n" and "\r" not in it
+                    and it != WRONG_LINE):
+                return False
+            size += len(it)
+        elif (isinstance(it, list) and len(it) in (3, 4) and _is_int(it[0], 1, MAX_BYTES)
+              and _is_int(it[1], 0, 10 ** 9) and _is_int(it[2], 2, MAX_BYTES)
+              and (len(it) == 3 or (isinstance(it[3], str) and len(it[3]) == 1 and it[3] not in "\r\n."
+                                    and len((it[3] + "\n").splitlines()) == 1))):
+            size += it[0] * max(it[2], 11)
+        else:
+            return False
+    return size <= MAX_BYTES
+
+
+def script(old, new):
+    """The ed script old -> new (two versions, items as in the case) from an LCS over the *items*: a run
+    written with a repeat count is kept or replaced as a whole, single lines are compared one by one -
+    for versions made of single lines this is the line LCS.  Checked against both line lists."""
+    hunks = ed.lcs_hunks(old, new)
+    at_old, at_new = [0], [0]
+    for v, at in ((old, at_old), (new, at_new)):
+        for it in v:
+            at.append(at[-1] + (1 if isinstance(it, str) else it[0]))
+    return ed.emit_plan(expand(old), expand(new),
+                        [(at_old[i1], at_old[i2], at_new[j1], at_new[j2]) for i1, i2, j1, j2 in hunks])
 
 
 def normalise(case):
@@ -287,6 +383,27 @@ def normalise(case):
         else:
             return None
     return vs, cfg, start, faults
+
+
+BOUNDARIES = (8 << 10, 64 << 10, 1 << 20)
+NEAR = 64
+
+
+def size_name(b):
+    return "%dKiB" % (b >> 10) if b < 1 << 20 else "%dMiB" % (b >> 20)
+
+
+def size_class(x):
+    """below / just-below (within NEAR bytes) / at / just-above / between the boundaries."""
+    for b in BOUNDARIES:
+        if x == b:
+            return "at-" + size_name(b)
+        if b - NEAR <= x < b:
+            return "just-below-" + size_name(b)
+        if b < x <= b + NEAR:
+            return "just-above-" + size_name(b)
+    below = [b for b in BOUNDARIES if b < x]
+    return "above-" + size_name(below[-1]) if below else "below-" + size_name(BOUNDARIES[0])
 
 
 def foreign_content(vs):
@@ -376,8 +493,10 @@ def patch_name(cfg, j):
 
 
 def build_repository(root, vs, cfg, faults, sub="repo"):
-    """Write repo/ under root; -> dict(remote=url prefix, urls of every resource)."""
+    """Write repo/ under root; -> dict(remote=url prefix, urls of every resource).  ``vs``: the versions
+    as in the case (items: lines and runs)."""
     n = len(vs) - 1
+    items, vs = vs, [expand(v) for v in vs]
     repo = os.path.join(root, sub)
     pdir = os.path.join(repo, NAME + ".diff")
     os.makedirs(pdir)
@@ -390,10 +509,8 @@ def build_repository(root, vs, cfg, faults, sub="repo"):
 
     listed = []     # (patch bytes as the Index describes them)
     for j in range(n):
-        good = enc(ed.make_script(vs[j], vs[j + 1], "lcs", 0))
         kind = pf.get(j)
-        if kind == "wrong":
-            good = enc(ed.make_script(vs[j], vs[j + 1] + [WRONG_LINE], "lcs", 0))
+        good = enc(script(items[j], items[j + 1] + [WRONG_LINE]) if kind == "wrong" else script(items[j], items[j + 1]))
         served = good
         if kind == "replaced":
             served = b"1a\ngarbled\n.\n" if good != b"1a\ngarbled\n.\n" else b"0a\ngarbled\n.\n"
@@ -486,7 +603,9 @@ class FailingWriter(object):
         if st_.get("fail_close"):
             # "close" fault: the data stays in the buffer and the failure (disk full, quota, file
             # size limit) only surfaces when the file is flushed at close
-            self._pending = getattr(self, "_pending", type(data)()) + data
+            if getattr(self, "_pending", None) is None:
+                self._pending = []
+            self._pending.append(data)
             return len(data)
         st_["writes"] += 1
         if st_["writes"] == st_.get("kill_write"):
@@ -510,6 +629,7 @@ class FailingWriter(object):
 
     def _fail_at_close(self):
         pend = getattr(self, "_pending", None)
+        pend = pend[0][:0].join(pend) if pend else None
         self._pending = None
         self._st["fired"].add("close")
         try:
@@ -694,9 +814,11 @@ def check(case):
     norm = normalise(case)
     if norm is None:
         return (False, ("invalid-case-skipped",))
-    vs, cfg, start, faults = norm
-    if not UTF8_LOCALE and any(ord(ch) > 127 for v in vs for l in v for ch in l):
+    items, cfg, start, faults = norm
+    non_ascii = not all(t.isascii() for v in items for it in v for t in ([it] if isinstance(it, str) else it[3:]))
+    if not UTF8_LOCALE and non_ascii:
         return (False, ("skipped-non-utf8-locale",))
+    vs = [expand(v) for v in items]
     n = len(vs) - 1
     target = vs[-1]
     enc = lambda lines: "".join(lines).encode("utf-8")
@@ -704,12 +826,16 @@ def check(case):
     if start[0] == "v":
         content = vs[start[1]]
     deb, prior = cfg["debris"], cfg["prior"]
-    vs0 = {"same": vs, "prefix": vs[:prior["upto"] + 1], "reversed": vs[::-1]}[prior["repo"]] if prior else []
+    vs0 = {"same": items, "prefix": items[:prior["upto"] + 1], "reversed": items[::-1]}[prior["repo"]] if prior else []
     # the harness's own patches must be right (ModelError -> exit 2, never a violation)
-    for hist in (vs, vs0):
+    patch_sizes = []
+    for hist in (items, vs0):
         for j in range(len(hist) - 1):
-            if ed.apply_script(hist[j], ed.make_script(hist[j], hist[j + 1], "lcs", 0)) != hist[j + 1]:
+            sc = script(hist[j], hist[j + 1])
+            if ed.apply_script(expand(hist[j]), sc) != expand(hist[j + 1]):
                 raise ed.ModelError("patch %d of the history is wrong" % j)
+            if hist is items:
+                patch_sizes.append(len(enc(sc)))
 
     root = tempfile.mkdtemp(prefix="vcheck-c19-", dir=SCRATCH)
     try:
@@ -726,7 +852,7 @@ def check(case):
             local0 = os.path.join(root, "local-before", NAME)
             if prior["start"] == "first":
                 with open(local0, "wb") as f:
-                    f.write(enc(vs0[0]))
+                    f.write(enc(expand(vs0[0])))
             st0 = {}
             try:
                 run_update(res0["remote"], local0, [], st0)
@@ -739,7 +865,7 @@ def check(case):
                 prior_outcome = "raised"
             prior_urls = [u for u in st0["urls"] if u in res0["patches"] or u == res0["full"]]
             shutil.rmtree(os.path.join(root, "repo"))
-        res = build_repository(root, vs, cfg, faults)
+        res = build_repository(root, items, cfg, faults)
         local = os.path.join(localdir, NAME)
         if content is not None:
             with open(local, "wb") as f:
@@ -748,8 +874,9 @@ def check(case):
         if deb:
             # an earlier update of the same local file, against the repository as it was when
             # v0..v<upto> were published (without faults), killed at the kill point
-            key = json.dumps([vs[:deb["upto"] + 1], cfg["hash"], cfg["order"], cfg["extra"], cfg["names"],
-                              cfg["ws"], content, deb["kill"]])
+            key = json.dumps([items[:deb["upto"] + 1], cfg["hash"], cfg["order"], cfg["extra"], cfg["names"],
+                              cfg["ws"], content if content is None or len(content) <= 40 else
+                              hashlib.sha1(enc(content)).hexdigest(), deb["kill"]])
             if key in _EARLIER:
                 # the same earlier run was interrupted for another plan already: put back what it left
                 earlier, local_then, files = _EARLIER[key]
@@ -762,7 +889,7 @@ def check(case):
                             f.write(data)
             else:
                 then = res if deb["upto"] == n and not faults else build_repository(
-                    root, vs[:deb["upto"] + 1], cfg, [], sub="repo-then")
+                    root, items[:deb["upto"] + 1], cfg, [], sub="repo-then")
                 earlier = interrupted_update(then["remote"], local, deb["kill"])
                 found = snapshot((localdir, tmpdir), local)
                 if all(v[0] is not None for v in found.values()):
@@ -928,8 +1055,21 @@ def check(case):
         labels.append("published-file-empty")
     if pre == b"":
         labels.append("local-file-empty")
-    if any(ord(ch) > 127 for v in vs for l in v for ch in l):
+    if non_ascii:
         labels.append("non-ascii-line")
+    sizes = dict(published=len(enc(target)), local=len(pre or b""), patch=max(patch_sizes),
+                 line=max([0] + [len(it.encode("utf-8")) if isinstance(it, str) else
+                                 max(run_bytes([1, it[1]] + it[2:]), run_bytes([1, it[1] + it[0] - 1] + it[2:]))
+                                 for v in items for it in v]))
+    if max(sizes.values()) >= BOUNDARIES[0] - NEAR:
+        # sizes around the block sizes of buffered I/O and chunked hashing: the published file, the local
+        # file as the call found it, the largest patch of the history, the longest line
+        labels += ["size:%s:%s" % (w, size_class(x)) for w, x in sorted(sizes.items())]
+        if n_lines(items[-1]) >= 1000:
+            labels.append("size:published:%s-lines" % ("100000+" if n_lines(items[-1]) >= 100000 else "1000+"))
+        if exc is None and got_patches:
+            lo, hi = min(len(pre or b""), len(enc(target))), max(len(pre or b""), len(enc(target)))
+            labels += ["size:patched-across:" + size_name(b) for b in BOUNDARIES if lo <= b <= hi and lo != hi]
     if len(got_patches if exc is None else []) >= 2:
         labels.append("chain>=2")
     effective = any(fault_name(f) in fired or f[0] in fired for f in faults)
@@ -1056,6 +1196,95 @@ def enum_layouts():
                         yield dict(hist, start=["v", 0], faults=[f])
 
 
+# sizes beyond a buffer: histories written with repeat counts
+
+
+def run_bytes(it):
+    """UTF-8 size of a run [count, first, width(, fill)] without expanding it."""
+    count, first, width = it[:3]
+    fb = len((it[3] if len(it) > 3 else "x").encode("utf-8"))
+    total, d, lo = 0, 1, 0
+    while lo < first + count:
+        hi = 10 ** d
+        k = min(hi, first + count) - max(lo, first)
+        if k > 0:
+            total += k * (d + 1 if d >= width - 1 else d + 2 + (width - 2 - d) * fb)
+        lo, d = hi, d + 1
+    return total
+
+
+def items_bytes(v):
+    return sum(len(it.encode("utf-8")) if isinstance(it, str) else run_bytes(it) for it in v)
+
+
+def fit(before, total, after=(), ch="y"):
+    """before + one filler line + after, ``total`` bytes long in UTF-8."""
+    r = total - items_bytes(before) - items_bytes(after)
+    if r < 1:
+        raise RuntimeError("C19 harness: nothing left to fill (%d)" % r)
+    return list(before) + [ch * (r - 1) + "\n"] + list(after)
+
+
+def run_within(nbytes, first, width, *fill):
+    """The longest run [count, first, width(, fill)] of at most nbytes bytes (count >= 1)."""
+    lo, hi = 1, max(nbytes, 1)
+    while lo < hi:
+        mid = (lo + hi + 1) // 2
+        lo, hi = (mid, hi) if run_bytes([mid, first, width] + list(fill)) <= nbytes else (lo, mid - 1)
+    return [lo, first, width] + list(fill)
+
+
+SIZE_WIDTH = 50
+
+
+def size_histories(b):
+    """(name, versions) around the boundary b: files and patches b - 1, b and b + 1 bytes long, growing and
+    shrinking across b through the chain, one line of about b bytes, very many short lines, non-ASCII
+    lines (b falls between the size in characters and the size in bytes), all the content replaced."""
+    w = SIZE_WIDTH
+    main = [[(b - 2 * w) // w, 0, w]]
+    yield "grow-at-the-end", [fit(main, b - 1), fit(main, b), fit(main, b + 1)]
+    yield "shrink-at-the-start", [fit([], b + 1, main), fit([], b - 1, main), fit([], b, main)]
+    # from a few lines to more than b and back: the middle version is local or published
+    yield "jump-up-and-down", [["a\n", "b\n", "c\n"], ["a\n"] + fit(main, b + 1 - 6) + ["b\n", "c\n"], ["a\n", "c\n"]]
+    # patches b - 1, b, b + 1 bytes long: "<n>a", the appended lines, "."
+    vs = [["a\n"]]
+    for t, size in enumerate((b - 1, b, b + 1)):
+        text = size - len("%da\n" % n_lines(vs[-1])) - 2
+        vs.append(vs[-1] + fit([[(text - 2 * w) // w, 100000 * (t + 1), w]], text, ch="yzu"[t]))
+    yield "patch-sizes", vs
+    yield "one-long-line", [["a\n", "b\n"]] + [["a\n", [1, 0, size], "b\n"] for size in (b - 1, b, b + 1)]
+    # bare numbers ("17\\n": 2..8 bytes a line), the version's size adjusted in the middle of the file
+    head = run_within(b // 2, 0, 2)
+    tail = run_within(b - b // 2 - 2 * w, head[0], 2)
+    yield "short-lines", [fit([head], b - 1, [tail]), fit([head], b + 1, [tail]), fit([head], b, [tail])]
+    accented = [run_within(b - 2 * w, 0, w, "\xe9")]
+    yield "non-ascii-lines", [fit(accented, b - 1), fit(accented, b), fit(accented, b + 1)]
+    yield "all-replaced", [fit(main, b + 1), fit([[(b - 2 * w) // w, 500000, w]], b - 1, ch="z")]
+
+
+def enum_sizes(boundaries=BOUNDARIES):
+    """Every history of size_histories() at every boundary x SHA1 / SHA256 x every start state without
+    fault, and - local copy at the oldest version - x {each patch self-consistent but wrong (the wrong line
+    is the last of the result), each patch replaced by an equivalent script (differs at its end only), last
+    patch replaced, wrong Current hash, first / last write failing, open, rename, close failing}."""
+    k = 0
+    for b in boundaries:
+        for name, vs in size_histories(b):
+            n = len(vs) - 1
+            for h in ("SHA1", "SHA256"):
+                k += 1
+                hist = {"versions": vs, "hash": h, "order": k % 4, "extra": bool(k & 4), "names": (k >> 1) & 1,
+                        "verbose": False, "via": 0, "ws": [], "debris": None, "prior": None}
+                for start in [["absent"]] + [["v", j] for j in range(n)] + [["current"], ["foreign"]]:
+                    yield dict(hist, start=start, faults=[])
+                fl = [["patch", kind, j] for j in range(n) for kind in ("wrong", "equivalent")]
+                fl += [["patch", "replaced", n - 1], ["index", "wrong-current", 0], ["write", 1],
+                       ["write", n_lines(vs[-1])], ["open"], ["rename"], ["close"]]
+                for f in fl:
+                    yield dict(hist, start=["v", 0], faults=[f])
+
+
 def histories_phase(n_histories):
     """Custom source: Hypothesis draws histories; every plan of every history goes through check()."""
     def fn(shard, nshards, seed, deadline, rec):
@@ -1118,8 +1347,8 @@ def histories_phase(n_histories):
 def sources(tier):
     if tier == "quick":
         return [Enum("fixed-histories", enum_fixed, EXHAUSTIVE["quick"]),
-                Enum("index-layouts", enum_layouts, LAYOUTS_DESC),
+                Enum("index-layouts", enum_layouts, LAYOUTS_DESC), Enum("sizes", enum_sizes, SIZES_DESC),
                 Custom("histories", histories_phase(12), shards=16)]
     return [Enum("fixed-histories", enum_fixed, EXHAUSTIVE["thorough"]),
-            Enum("index-layouts", enum_layouts, LAYOUTS_DESC),
+            Enum("index-layouts", enum_layouts, LAYOUTS_DESC), Enum("sizes", enum_sizes, SIZES_DESC),
             Custom("histories", histories_phase(400), shards=16)]
